@@ -17,6 +17,7 @@ RULE = ('(A) the C01 byte space (every opcode cell x 256 ModRM x SIB/filler clas
         'displacements at boundary values, decoded from a virtual stream at offsets {0,1,0x1000,0x7fffffff,0x80000000,0xfffffff0..0xffffffff}: '
         'offset recorded, getnextflow, getdstflow == (offset+l+sext(disp)) mod 2^opsize. A case = (bytes, offset); non-trivial = both decoders accept '
         '(A) / miasmX accepts the transfer (B).')
+RULE += ' Round 6: transfers with repeated and hint-separated operand-size prefixes (66 66 e9, 66 2e 66 e8, 67 67 e9 ...).'
 ASSUMPTIONS = ['objdump 2.40 mnemonics identify the architectural instruction class', 'target arithmetic of part B is the harness own (SDM: EIP := (EIP + sext(rel)) truncated to the operand size)']
 
 NO_FALLTHROUGH = re.compile(r'^(jmp|jmpw|ljmp|ljmpw|ret|retw|retf|retfw|lret|lretw|iret|iretw|iretd|hlt|ud2)$')
